@@ -1045,5 +1045,5 @@ func TestC07(t *testing.T) {
 	c.Rule("typed expression generator whose leaves are side-effecting probes p(id[,v]) / pfail(id) with unique ids, over: calls of script functions (arity 0-4 direct path, 5-6 reflect path, variadic) and Go functions (fixed, variadic, typed parameters provoking conversion errors) as plain / spread / wrong-arity / anonymous / go / defer calls, list and map literals (typed, untyped and map{...}; also with a key operand whose value can be no map key), every binary operator including `in` (also with a right side that is not a list), index, 2- and 3-index slices, return lists, multi-assignment, var, && || ?: ??, a[i] op= e for every op= of the grammar and a[i]++ (multiplicity, and the first evaluation of every operand of the target before e), a[i] = e (multiplicity only); slot patterns (one root in seven): an operand read from a slot - element of a typed slice / untyped list / array field, map entry, struct field, pointee, plain variable; ints, strings, and lists as the container of an index or slice expression - while another operand of the same binary operator, in, index, slice, list / map literal, return list, multi-assignment or var right-hand side, call argument list (every call path, plain and spread, also deferred) or the callee itself stores into that slot: the result is the one computed from the values at evaluation time; non-trivial = a slot pattern, or >= 3 probe leaves and a short-circuit / raising / unconvertible operand or a reflect-path, variadic, spread, wrong-arity, go or defer call; distinct by source text")
 	h.Run(c, "evalorder", c.N(15000, 150000), gen, oracle)
 	c.Rule("sametree: a program of the same generator (2-8 roots, half of them a statement around an operator chain a && b && ... / a || b || ... of 2-32 operands without inner parentheses, the deciding operand drawn) is parsed once and the one tree is run by 2-8 (mostly 2-4) goroutines at the same time, each in a fresh environment of its own, the runs meeting at a barrier before every root; one case in five after a solitary run of the tree; then once more alone; the whole once or twice, each time on a fresh parse; every run is compared with the reference interpreter like a solitary run; non-trivial = at least 3 probe leaves; distinct by goroutine count, warm/cold and source text")
-	h.Run(c, "sametree", c.N(300, 3000), genSameTree, oracleSameTree)
+	h.Run(c, "sametree", c.N(300, 2000), genSameTree, oracleSameTree)
 }
